@@ -211,9 +211,8 @@ def plan(tier, seed):
     if tier == "thorough":  # all orders under the first seed, the two extreme orders under every other seed
         combos = [(hs, od) for hs, od in combos if hs == seeds[0] or od in (0, 5)]
     for hs, od in combos:
-        if True:
-            for k in range(of):
-                cfgs.append({"env": {"PYTHONHASHSEED": hs}, "order": od, "n": N[tier], "nv": NV[tier], "ntok": T[tier], "pairs_n": 2 if tier == "quick" else 3,
+        for k in range(of):
+            cfgs.append({"env": {"PYTHONHASHSEED": hs}, "order": od, "n": N[tier], "nv": NV[tier], "ntok": T[tier], "pairs_n": 2 if tier == "quick" else 3,
                              "k": k, "of": of, "label": f"hashseed={hs} order={od} part={k}/{of}"})
     return cfgs
 
